@@ -275,7 +275,7 @@ pub fn run(ctx: &mut Ctx) {
                 distinct = distinct program text"
         .into();
     ctx.assumptions.push("don't-care: whether an async + `ref` trait additionally needs `T: Send` (not probed)".into());
-    let n = ctx.n(400, 5000) as usize;
+    let n = ctx.n(1200, 10000) as usize;
     let tapes = crate::drive::gen_tapes(ctx.seed, 600, n, TAPE_LEN);
     let cases: Vec<Case> = tapes.iter().map(|tp| gen_case(&mut Tape::new(tp))).collect();
     let mut batch = Batch::new("c06", Opts { feature_unimock: false, members: 16, ..Default::default() });
